@@ -47,6 +47,10 @@ CLAIMED = {
         technique="MIR cross-contract constant propagation of the fluctuation flag, guard facts of the vAMM band check before every reserve write, decision-tree and query-argument analysis of ClosePosition, reference-snapshot selection and Env plumbing",
         note="Decided: R15.1 every SwapInput on the OpenPosition chains (incl. the chained increase after a reversal) carries can_go_over_fluctuation=false; R15.2 reserve writes are preceded by the strict, unconditional already-outside test and by the would-leave test unless the flag is set; R15.3 ClosePosition's fluctuation query uses the position's closing direction and whole size; R15.4 partial close iff over-limit and ratio<1, amount = size*ratio/decimals; R15.5 previous snapshot iff latest is from this block and not the first, callers pass Env unchanged. Not decided: the band arithmetic itself.",
         design="4/C15"),
+    "C11": dict(
+        technique="MIR expression-tree normalisation and pattern matching (formula identity) for the funding formulas, guard facts for the schedule, stored-value flow for the charge/checkpoint pairing",
+        note="Decided: R11.1 SettleFunding success paths establish now >= next_funding_time; R11.2 premium fraction tree (twap_vamm - twap_oracle)*period/86400 behind the emitted attribute and the funding rate, next funding time max(aligned, now+buffer), buffer = period/2 only at instantiate; R11.3 one append per reply path, cumulative = last + new, payment = tps*fraction/decimals, sign table (negative -> insurance Withdraw(|p|), positive -> transfer to insurance fund, zero -> nothing); R11.4 margin and checkpoint come from the same remain-margin result at every position store or are both untouched/reset. Not decided: TWAP values (C18), numeric exactness beyond formula identity, the cap min(balance, p) arithmetic.",
+        design="4/C11"),
 }
 
 NOT_BUILT = "rules designed in DESIGN.md section 4 but not built yet"
